@@ -40,7 +40,7 @@ CAT = {
                                         [0., 0., 1.2 * np.sin(np.radians(100.))]]), [np.zeros(3)]),
              dict(chem=0, cut=[1.01, 1.11, 1.21])),
     'TRIC': (lambda: crystal.Crystal(A([[1., 0.21, 0.17], [0., 1.1, 0.33], [0., 0., 1.23]]), [np.zeros(3)]),
-             dict(chem=0, cut=[1.01, 1.13])),
+             dict(chem=0, cut=[1.01, 1.13, 1.3], note='cut index 2 is the first that percolates in 3D')),
     'RHOM': (lambda: crystal.Crystal(A([[1., 0.3, 0.3], [0.3, 1., 0.3], [0.3, 0.3, 1.]]), [np.zeros(3)]),
              dict(chem=0, cut=[1.05, 1.15])),
     'HEXP': (lambda: crystal.Crystal(hexl(1.1), [np.zeros(3)]), dict(chem=0, cut=[1.01, 1.11])),
@@ -82,6 +82,18 @@ CAT = {
     # ---- hosts with interstitial sublattices
     'FCC_OT': (lambda: crystal.Crystal(FCCL, [[np.zeros(3)], [A([0.5, 0.5, -0.5]), A([0.25, 0.25, 0.25]), A([0.75, 0.75, 0.75])]], ['Pd', 'H']),
                dict(chem=1, cut=[0.48, 0.51, 0.72], interstitial=True)),
+    # the same crystal with the interstitial species listed FIRST (chem = 0 is not the last chemistry)
+    'OT_FCC': (lambda: crystal.Crystal(FCCL, [[A([0.5, 0.5, -0.5]), A([0.25, 0.25, 0.25]), A([0.75, 0.75, 0.75])], [np.zeros(3)]], ['H', 'Pd']),
+               dict(chem=0, cut=[0.48, 0.51, 0.72], interstitial=True)),
+    # binary host (B2) with an interstitial sublattice (face and edge centres): interstitial species last / in the middle
+    'B2AB_O': (lambda: crystal.Crystal(np.eye(3), [[np.zeros(3)], [0.5 * np.ones(3)],
+                                                   [A([0.5, 0.5, 0.]), A([0.5, 0., 0.5]), A([0., 0.5, 0.5]), A([0.5, 0., 0.]), A([0., 0.5, 0.]), A([0., 0., 0.5])]],
+                                       ['A', 'B', 'O']),
+               dict(chem=2, cut=[0.51], interstitial=True)),
+    'B2AOB': (lambda: crystal.Crystal(np.eye(3), [[np.zeros(3)],
+                                                  [A([0.5, 0.5, 0.]), A([0.5, 0., 0.5]), A([0., 0.5, 0.5]), A([0.5, 0., 0.]), A([0., 0.5, 0.]), A([0., 0., 0.5])],
+                                                  [0.5 * np.ones(3)]], ['A', 'O', 'B']),
+              dict(chem=1, cut=[0.51], interstitial=True)),
     'FCC_O': (lambda: crystal.Crystal(FCCL, [[np.zeros(3)], [A([0.5, 0.5, -0.5])]], ['Pd', 'H']),
               dict(chem=1, cut=[0.72, 1.01], interstitial=True)),
     'FCC_T': (lambda: crystal.Crystal(FCCL, [[np.zeros(3)], [A([0.25, 0.25, 0.25]), A([0.75, 0.75, 0.75])]], ['Pd', 'H']),
